@@ -6,6 +6,7 @@ import (
 	"fmt"
 	"go/token"
 	"go/types"
+	"strings"
 
 	"golang.org/x/tools/go/ssa"
 )
@@ -116,6 +117,12 @@ func (p *Prog) callerIndex() map[*ssa.Function]map[*ssa.Function]bool {
 	for _, f := range fns {
 		for _, b := range f.Blocks {
 			for _, in := range b.Instrs {
+				if ci, ok := in.(ssa.CallInstruction); ok && ci.Common().IsInvoke() {
+					// interface call on an interface declared in the module: every module implementation is a callee
+					for _, m := range p.moduleImpls(ci.Common()) {
+						add(m, f)
+					}
+				}
 				for _, op := range in.Operands(nil) {
 					if op == nil || *op == nil {
 						continue
@@ -535,4 +542,64 @@ func isPublicFn(f *ssa.Function) bool {
 		}
 	}
 	return true
+}
+
+// moduleIface: is t a named interface declared in the module? sealed reports whether it can only be implemented by
+// module types (the interface or one of its methods is unexported).
+func (p *Prog) moduleIface(t types.Type) (is bool, sealed bool) {
+	n, ok := types.Unalias(t).(*types.Named)
+	if !ok || n.Obj().Pkg() == nil || !strings.HasPrefix(n.Obj().Pkg().Path(), modPath) {
+		return false, false
+	}
+	it, ok := n.Underlying().(*types.Interface)
+	if !ok {
+		return false, false
+	}
+	sealed = !n.Obj().Exported()
+	for i := 0; i < it.NumMethods(); i++ {
+		if !it.Method(i).Exported() {
+			sealed = true
+		}
+	}
+	return true, sealed
+}
+
+// moduleImpls: for an invoke on an interface declared in the module, the methods of the module's named types that
+// implement it (nil for interfaces declared elsewhere).
+func (p *Prog) moduleImpls(c *ssa.CallCommon) []*ssa.Function {
+	if !c.IsInvoke() {
+		return nil
+	}
+	if is, _ := p.moduleIface(c.Value.Type()); !is {
+		return nil
+	}
+	it := c.Value.Type().Underlying().(*types.Interface)
+	var out []*ssa.Function
+	for _, pk := range p.All {
+		if pk.Module == nil || pk.Module.Path != modPath || pk.Types == nil {
+			continue
+		}
+		sc := pk.Types.Scope()
+		for _, name := range sc.Names() {
+			tn, ok := sc.Lookup(name).(*types.TypeName)
+			if !ok || tn.IsAlias() {
+				continue
+			}
+			if _, isI := tn.Type().Underlying().(*types.Interface); isI {
+				continue
+			}
+			for _, t := range []types.Type{tn.Type(), types.NewPointer(tn.Type())} {
+				if !types.Implements(t, it) {
+					continue
+				}
+				if sel := p.SSA.MethodSets.MethodSet(t).Lookup(c.Method.Pkg(), c.Method.Name()); sel != nil {
+					if m := p.SSA.MethodValue(sel); m != nil {
+						out = append(out, m)
+					}
+				}
+				break
+			}
+		}
+	}
+	return out
 }
